@@ -471,6 +471,16 @@ class Spec:
         # (identifiers that own nothing and await deletion are shown by no query: they stay as known - after
         # a process() that was left by an exception these are the ones its callbacks asked for, the sweep
         # itself starts from an emptied set)
+        # exactly-once lifecycle across the exception: whatever the failed operation detached got its
+        # on_remove (dispatching enabled, no re-entrant callbacks, no operation since then unseen)
+        if self.enabled and not self.reentered and failed_op != 'enable' and not getattr(self, 'skipped', 0):
+            for e, row in self.attached.items():
+                for T, c in row.items():
+                    m = (self.mapping(c) or {}).get('on_remove')
+                    if merged.get(e, {}).get(T) != c and m and not any(
+                            cb.split()[1] == str(c) and cb.split()[2] == m for cb in self.cur_cbs):
+                        raise Mismatch('missing-callback', f'`{failed_op}` was left by an exception and detached '
+                                       f'component {c} of entity {e} without its on_remove callback ({m})')
         unknown = [] if failed_op == 'process' and self.reentered else [
             x for x in self.dead if x not in merged and x not in self.attached]
         self.attached = merged
@@ -522,7 +532,7 @@ class Spec:
             tag = t[0]
             if t[-1].startswith('!'):
                 clause = {'get': 'get', 'getall': 'get', 'row': 'get_components', 'exists': 'entity_exists', 'has': 'has_component', 'hasx': 'has_component',
-                          'entities': 'entities', 'procs': 'processors-order', 'gp': 'get_processor',
+                          'entities': 'entities', 'procs': 'processors-order', 'gp': 'get_processor', 'gpx': 'get_processor',
                           'ish': 'registered-iff-attached'}.get(tag, tag)
                 raise Mismatch(clause, f'query `{" ".join(t[:-1])}` raised {t[-1][1:]}')
             if tag == 'get':
@@ -541,6 +551,10 @@ class Spec:
                         raise Mismatch('has_component', f'queries by {name} (no base class of any component) '
                                        f'disagree for entity {t[1]}: has_component={t[j]} '
                                        f'get_component={t[j + 1]} get()={t[j + 2]}')
+            elif tag == 'gpx':
+                if (t[1] == 'None') != (not self.procs) or (t[1] != 'None' and int(t[1]) not in self.procs):
+                    raise Mismatch('get_processor', f'get_processor(<a plain mixin every processor class derives '
+                                   f'from>) = {t[1]}, processors: {self.procs}')
             elif tag == 'getall':
                 want = sorted(e * 100000 + c for e, row in self.attached.items() for c in row.values())
                 w = ','.join(f'{p // 100000}:{p % 100000}' for p in want) or '-'
@@ -688,6 +702,7 @@ def _check_ops(sp, groups):
             return [{'sig': 'shape', 'what': f'expected op result for `{" ".join(t)}`, got {g[1][:2]}'}]
         _, cbs, res, ret = g
         if sp.failed:
+            sp.skipped = getattr(sp, 'skipped', 0) + 1
             # after a callback exception propagated the statement only demands (C05) that process()
             # does not keep failing because of deletion bookkeeping (one KeyError is legitimate after
             # a delete_entity of an id that may not exist)
@@ -766,6 +781,7 @@ def _check_ops(sp, groups):
             # event was delivered, the later ones stay pending in order (they are popped one at a time)
             if e.name != 'KeyError' and t[0] != 'enable':
                 sp.failed_op = t[0]
+                sp.skipped = 0
                 sp.failed = 'deleted' if any(x not in sp.attached for x in sp.dead) else True
         except Mismatch as m:
             return [{'sig': m.clause + territory(), 'what': m.what}]
